@@ -134,7 +134,9 @@ func (ld *Layerdefs) removeLayerExportLinks(layer *Layerinfo) error {
 		if !fs.IsSymlink(item.Mount) {
 			return fmt.Errorf("Export %s is not a symlink; cannot remove", item.Mount)
 		}
-		fs.Remove(item.Mount)
+		if err := fs.Remove(item.Mount); err != nil {
+			return err
+		}
 	}
 	return nil
 }
